@@ -81,11 +81,11 @@ def train_case(case):
     if family in M.HAS_HIDDEN:
         kw["n_hidden_dim"] = 4 if data_id == 0 else 5
     if family == "Douglas":
-        kw["n_cuts"] = 1 if data_id == 0 else (3 if variant else 2)
+        kw["n_cuts"] = 1 if data_id == 0 else (3 if variant in (1, 2, 3, 4) else 2)
         kw["random_state"] = seed + variant
         kw["temperature"] = 0.5
         if data_id == 1:
-            kw["feature_mask"] = np.array([True, False, True])
+            kw["feature_mask"] = np.array([True, False, True]) if variant != 5 else np.array([False, True, False])   # variant 5: a one-feature tree
     if family in ("SparseLinearModel", "SparseMLPModel"):
         kw["alpha"] = 0.05 if not use_path else 0.3
     model = M.make(family, **kw)
@@ -172,7 +172,7 @@ def explorers(tier, seed):
             gems = [g for i, g in enumerate(M.ALL_GEMINIS) if i % 2 == rot or g in ("mi", "wasserstein_ovo")]
         for gemini in gems:
             for solver in ("adam", "sgd"):
-                ids = (0, 1, 11, 12, 13, 14) if family == "Douglas" else ((0, 1, 20, 21) if family in ("SparseLinearModel", "SparseMLPModel") else (0, 1))
+                ids = (0, 1, 11, 12, 13, 14, 15) if family == "Douglas" else ((0, 1, 20, 21) if family in ("SparseLinearModel", "SparseMLPModel") else (0, 1))
                 for data_id in ids:
                     if data_id >= 20 and solver == "sgd":
                         continue
